@@ -33,7 +33,7 @@ LEVEL_TEXT = ("Generated-input search (Hypothesis, seeded, sharded) over user "
               "and explicit-sum covariance references.  Absence of violations "
               "is not proven.")
 LEVEL_NOTE = ("K 2..4 (5), antennas 1..4 (6), streams 1..3; float64; SINR "
-              "compared with relative tolerance 1e-10*(1+total/denominator) "
+              "compared with relative tolerance 1e-9*(1+total/denominator) "
               "(the library forms the denominator by subtracting the own "
               "stream from the total covariance)")
 TECHNIQUE = ("property-based testing (Hypothesis): independent reference "
@@ -54,7 +54,7 @@ ASSUMPTIONS = [
     "interference-plus-noise power of every stream is > 0, so no SINR is "
     "infinite; an exactly zero denominator (noise None/0 and no interference) "
     "is outside the generated domain",
-    "SINR tolerance is relative 1e-10*(1+total/denominator): the library "
+    "SINR tolerance is relative 1e-9*(1+total/denominator): the library "
     "obtains the denominator as (total covariance - own stream covariance), "
     "which loses total/denominator digits by cancellation",
     "the IA-solver comparison uses a minimal concrete subclass of "
@@ -65,7 +65,7 @@ ASSUMPTIONS = [
     "one set_pathloss per channel object (histories are C08's subject)",
 ]
 
-RTOL = 1e-10
+RTOL = 1e-9
 QTOL = 1e-11
 
 
